@@ -39,6 +39,10 @@ def failures(sc):
     # a remote @context that cannot be fetched (a file URL that does not exist: the document loader fails at once, without any network)
     fs.append({"id": "input:data_remote_context", "kind": "input", "has_data": True,
                "data": json.dumps({"@context": "file:///sim-nonexistent/context.jsonld", "@id": "http://sim.example/r1", "@type": "http://a.ml/vocabularies/apiContract#WebAPI"})})
+    # documents without nodes: on some trees the library panics on them while indexing (escaping panics are C17's
+    # subject, not claimed): for these inputs a panicking call is not judged for the close, only the events it sent are
+    fs.append({"id": "input:data_empty_array", "kind": "input", "has_data": True, "data": "[]", "may_panic": True})
+    fs.append({"id": "input:data_empty_object", "kind": "input", "has_data": True, "data": "{}", "may_panic": True})
     fs.append({"id": "input:eval_conflict_toplevel", "kind": "input", "profile": rd(os.path.join(c11, "eval_conflict_toplevel.yaml"))})
     for site in sc.census.get("fail_sites") or []:
         if "test_utils" in site:
@@ -204,7 +208,10 @@ def judge(r, ff, ops, ffsteps):
     entry = base_entry(entry)
     compile_ok_alone = entry == "CompileProfile" and ret == ["ok"]
     dl = r.get("deadlock") or ""
-    if compile_ok_alone:
+    other_panic = [x for x in panics if not any(m in x for m in CHANNEL_PANICS)]
+    if cell["failure"].get("may_panic") and other_panic:
+        pass  # the call panicked for a reason of its own (C17): nothing is demanded of the close
+    elif compile_ok_alone:
         if r.get("closed"):
             out.append(("closed_after_successful_compile", "CompileProfile", "a successful stand-alone CompileProfile closed the channel"))
     else:
